@@ -316,7 +316,8 @@ def run_check(pid: str, tier: str, master: int) -> int:
     new_violation = False
     known_matched = []
     reported = []
-    os.makedirs(os.path.join(VERIF, "replays"), exist_ok=True)
+    replay_dir = os.environ.get("VERIF_REPLAY_DIR") or os.path.join(VERIF, "replays")
+    os.makedirs(replay_dir, exist_ok=True)
     for key in sorted(by_key)[:12]:
         msg, scn = min(by_key[key], key=lambda ms: len(ms[1]["steps"]))
         kf = known_open(pid, key)
@@ -324,7 +325,7 @@ def run_check(pid: str, tier: str, master: int) -> int:
         small["expect"] = {"property": pid, "key": key, "message": msg}
         blob = json.dumps(small, sort_keys=True, indent=1)
         name = "%s-%d-%s.json" % (pid, master, hashlib.sha256(key.encode()).hexdigest()[:10])
-        path = os.path.join(VERIF, "replays", name)
+        path = os.path.join(replay_dir, name)
         with open(path, "w") as fh:
             fh.write(blob)
         try:
@@ -391,9 +392,10 @@ def run_check(pid: str, tier: str, master: int) -> int:
             "harness_errors": agg["errors"][:5],
         },
     }
-    os.makedirs(os.path.join(VERIF, "evidence"), exist_ok=True)
-    with open(os.path.join(VERIF, "evidence", pid + ".json"), "w") as fh:
-        json.dump(ev, fh, indent=1, sort_keys=True, default=str)
+    if not os.environ.get("VERIF_NO_EVIDENCE"):
+        os.makedirs(os.path.join(VERIF, "evidence"), exist_ok=True)
+        with open(os.path.join(VERIF, "evidence", pid + ".json"), "w") as fh:
+            json.dump(ev, fh, indent=1, sort_keys=True, default=str)
     print("runs=%d distinct_nontrivial=%d sim_time=%.0fs wall=%.1fs faults=%s" % (
         agg["runs"], distinct, agg["sim_time"], wall, json.dumps(dict(sorted(agg["fired"].items())))), flush=True)
     for e in agg["errors"][:5]:
